@@ -2,30 +2,30 @@
    half of C09; the run-time half — a sched_safe program unfolds, generates and runs without
    a Python exception and completes — is the RefSem/NetModel development).
 
-   sched_safe p = what Scheduler(...) and the run need from the program text:
+   sched_safe p = what Scheduler(...) and the run need from the calls and loops of the program:
      (1) productionTask exists                           (Unfold.unfold_program: find_task)
-     (2) every task call outside parallel loops names a defined task, with matching arity
+     (2) every task call — in loops, conditions, Parallel blocks and parallel loops — names a
+         defined task, with matching arity
      (3) a parallel loop consists of exactly one task call
      (4) call parameters are declared variables
-     (5) the call inside a parallel loop is a correct call            -- not checked: D9
-     (6) the call graph is acyclic                                    -- not checked: D8
-     (7) loop limits are integers or number paths                     -- not checked: D10
-     (8) guards are boolean expressions                               -- not checked: D12b *)
+     (5) no task call leads back to the calling task (the unfolding is finite)
+     (6) loop limits are integers or resolve to a number
+   and, not checked by the validator (known finding D12b):
+     (7) guards are boolean expressions *)
 From PFDL Require Import Base Syntax.
 From PFDL.Check Require Import CheckModel CheckProofsC10 Typing Guards.
 
-Definition sched_safe_checked (p : program) : bool :=
+Definition sched_safe (p : program) : bool :=
   negb (has_fault_no_start_task p)
   && negb (has_fault_unknown_task p) && negb (has_fault_wrong_arity p)
   && negb (has_fault_bad_parallel_loop p)
-  && negb (has_fault_undeclared_variable p).
+  && negb (has_fault_undeclared_variable p)
+  && negb (has_fault_recursive_call p)
+  && negb (has_fault_bad_limit p).
 
-Definition sched_safe_unchecked (p : program) : bool :=
-  negb (sh_parloop_call p) && negb (has_recursion p) && negb (has_bad_limit p) && negb (sh_bad_guard p).
+Definition guards_typed (p : program) : bool := negb (sh_bad_guard p).
 
-Definition sched_safe (p : program) : bool := sched_safe_checked p && sched_safe_unchecked p.
-
-Definition C09_accepted_is_sched_safe : Prop := forall p, validate p = Ok [] -> sched_safe p = true.
+Definition C09_accepted_guards_typed : Prop := forall p, validate p = Ok [] -> guards_typed p = true.
 
 Lemma accepted_no_fault : forall (hf : program -> bool),
   (forall p, hf p = true -> validate p <> Ok []) -> forall p, validate p = Ok [] -> hf p = false.
@@ -33,21 +33,17 @@ Proof.
   intros hf H p Hacc. destruct (hf p) eqn:Hf; [|reflexivity]. exfalso. exact (H p Hf Hacc).
 Qed.
 
-Theorem accepted_sched_safe_checked : forall p, validate p = Ok [] -> sched_safe_checked p = true.
+Theorem accepted_sched_safe : forall p, validate p = Ok [] -> sched_safe p = true.
 Proof.
-  intros p Hacc. unfold sched_safe_checked.
+  intros p Hacc. unfold sched_safe.
   rewrite (accepted_no_fault _ no_start_task_rejected p Hacc).
   rewrite (accepted_no_fault _ unknown_task_rejected p Hacc).
   rewrite (accepted_no_fault _ wrong_arity_rejected p Hacc).
   rewrite (accepted_no_fault _ bad_parallel_loop_rejected p Hacc).
   rewrite (accepted_no_fault _ undeclared_variable_rejected p Hacc).
+  rewrite (accepted_no_fault _ recursive_call_rejected p Hacc).
+  rewrite (accepted_no_fault _ bad_limit_rejected p Hacc).
   reflexivity.
-Qed.
-
-Theorem accepted_sched_safe_partial : forall p,
-  sched_safe_unchecked p = true -> validate p = Ok [] -> sched_safe p = true.
-Proof.
-  intros p Hu Hacc. unfold sched_safe. rewrite (accepted_sched_safe_checked p Hacc), Hu. reflexivity.
 Qed.
 
 (* the start of Unfold.unfold_program / PetriNetGenerator.generate_petri_net succeeds *)
